@@ -28,7 +28,7 @@ MANIFEST = {
         "guard": "--cfg ragc_verif",
         "enable": "RUSTFLAGS='--cfg ragc_verif' cargo build (the harness in /verif/harness path-depends on /repo's crates)",
         "baseline_off_cmd": "cd /repo && cargo test --workspace --no-fail-fast --offline",
-        "source_commits": [],
+        "source_commits": ["59a5b32324c1fe5f597d17383c498fa5d6e4bd73", "5f793bfc9cca57e21f3d72c9e3bf65a23272c99c", "94cec8d55fc34884836ad68db7187dd4f71e98d9"],
         "add_only": True,
     },
     "engines": [
